@@ -20,7 +20,7 @@ type genCtx struct {
 	thor   bool
 }
 
-func (g *genCtx) graph(depth int, parentHasState bool, wide bool) int {
+func (g *genCtx) graph(depth int, parentHasState bool, parentTy int, wide bool) int {
 	r := g.r
 	gi := len(g.c.Forest)
 	g.c.Forest = append(g.c.Forest, GraphSpec{})
@@ -29,7 +29,15 @@ func (g *genCtx) graph(depth int, parentHasState bool, wide bool) int {
 	if depth > 0 {
 		state = r.Chance(6, 10)
 	}
+	sty := 0
+	if state && r.Chance(1, 3) {
+		sty = 1
+	}
 	visible := state || parentHasState
+	visTy := parentTy
+	if state {
+		visTy = sty
+	}
 	nl := r.Range(1, 3)
 	if depth > 0 {
 		nl = r.Range(1, 2)
@@ -68,6 +76,19 @@ func (g *genCtx) graph(depth int, parentHasState bool, wide bool) int {
 			}
 			if r.Chance(1, 3) {
 				n.DelayUs = r.Intn(300)
+			}
+			// malformed: a handler / ProcessState call written for the other state type
+			if state && n.Pre && r.Chance(1, 300) {
+				t := 1 - sty
+				n.PreTy = &t
+			}
+			if state && n.Post && r.Chance(1, 300) {
+				t := 1 - sty
+				n.PostTy = &t
+			}
+			if visible && n.PS > 0 && r.Chance(1, 200) {
+				t := 1 - visTy
+				n.PSTy = &t
 			}
 			if l > 0 {
 				prev := layers[l-1]
@@ -112,15 +133,16 @@ func (g *genCtx) graph(depth int, parentHasState bool, wide bool) int {
 		for i := range nodes {
 			if len(g.c.Forest) < 4 && r.Chance(1, 5) {
 				nodes[i].PS = 0
+				nodes[i].PSTy = nil
 				nodes[i].DelayUs = 0
-				nodes[i].Sub = g.graph(depth+1, visible, false)
+				nodes[i].Sub = g.graph(depth+1, visible, visTy, false)
 			}
 		}
 	}
 	for i := range nodes {
 		sortInts(nodes[i].Preds)
 	}
-	g.c.Forest[gi] = GraphSpec{Mode: mode, State: state, Nodes: nodes}
+	g.c.Forest[gi] = GraphSpec{Mode: mode, State: state, STy: sty, Nodes: nodes}
 	return gi
 }
 
@@ -135,7 +157,7 @@ func sortInts(a []int) {
 func (engine) Generate(r *lib.Rng, tier string, i int) any {
 	c := &Case{X0: int64(r.Intn(1000)), Runs: 1, Yield: r.U64() % 100000}
 	g := &genCtx{r: r, c: c, nextID: 1, thor: tier == "thorough"}
-	g.graph(0, false, true)
+	g.graph(0, false, 0, true)
 	if r.Chance(2, 5) {
 		c.Runs = 2
 		c.Concurrent = r.Chance(2, 3)
